@@ -56,6 +56,8 @@ GROUPS += [
           unwind=4, bounded=MEMB, extra_cbmc=["--arrays-uf-always"], timeout=900, mem_gb=28),
 ]
 
+GROUPS.append(Group(name="C05/parse_org", unity="C05/u_org.cpp", entry="h_org", functions=[("parse_org", "core/directives.cpp", "harness (function text extracted verbatim), loop-free, all operand values"), ("AsmContext::set_org", "core/AsmContext.h", "real callee")],
+                    checks=["--bounds-check", "--pointer-check"], timeout=300))
 LEVEL = "proof"
 TRUSTED = [
     "tokens_get/tokens_push/eval_expression/ignore_operand replaced by their contracts (arbitrary token; arbitrary value or unresolved)",
